@@ -96,7 +96,7 @@ def derive(ctx, rng, case):
         return None
     try:
         # also values sitting exactly on a bound / at an extreme length: pinning must keep them generatable
-        v = witness(spec, rng, rng.choice(("rand", "rand", "min", "max")))
+        v = witness(spec, rng, rng.choice(("rand", "min", "min", "max")))
     except Unsat:
         ctx.count("unsat_skipped")
         return None
@@ -105,7 +105,14 @@ def derive(ctx, rng, case):
         # partial list values with a ... placeholder: the result is an ellipsis element list that keeps the
         # original length constraints (a state declaration cannot reach)
         k = rng.randint(0, len(v))
-        v = rng.choice((v[:k] + [...], [...] + v[k:], [...] + v[k:k + 1] + [...] if v[k:k + 1] else v[:k] + [...]))
+        variants = [v[:k] + [...], [...] + v[k:], [...] + v[k:k + 1] + [...] if v[k:k + 1] else v[:k] + [...]]
+        if v:
+            # one end *replaced* by the placeholder: the value keeps its length (it may sit exactly on a length bound)
+            # while the number of concrete elements drops below it
+            variants += [v[:-1] + [...], [...] + v[1:], v[:-1] + [...], [...] + v[1:]]
+            if len(v) >= 3:
+                variants.append([...] + v[1:-1] + [...])
+        v = rng.choice(variants)
     try:
         res = substitute(schema, v)
     except SubstitutionError:
